@@ -5,9 +5,11 @@
   Only property theorems, their non-vacuity examples and the axiom audit live here.
   Model: Model/Remap.lean (mirror of rebase_authorship.rs: try_remap_base_commit_sha_field,
   remap_note_content_for_target_commit, tracked_paths_match_for_commit_pairs and both
-  try_fast_path_*_note_remap) on top of Model/NoteFormat.lean.
+  try_fast_path_*_note_remap, and note_for_rewritten_commit — the per-commit note of full
+  replay — over a ghost labelling of the repository) on top of Model/NoteFormat.lean.
 -/
 import GitAiModel.Lemmas.Remap
+import GitAiModel.Lemmas.RemapReplay
 import GitAiModel.Base.Chars
 namespace GitAi.Remap
 open GitAi GitAi.NoteFormat
@@ -257,8 +259,9 @@ theorem sameUpToBase_trans (a b c : Str) (h1 : sameUpToBase a b = true)
         simp only [ha, hb, hcv, Bool.and_eq_true, beq_iff_eq] at h1 h2 ⊢
         exact ⟨⟨h1.1.1.trans h2.1.1, h1.1.2.trans h2.1.2⟩, h1.2.trans h2.2⟩
 
-/-- The two named hypotheses about the slow path `replay range c` (the note full content
-    replay produces for commit `c` of `range`) under which the shortcut is correct. -/
+/-- The two named hypotheses about an ABSTRACT replay `replay range c` (the note full content
+    replay produces for commit `c` of `range`) under which the shortcut is correct.  Section 4
+    discharges them for the modelled replay of /repo (`replayNote`). -/
 structure ReplayHyps (replay : List Oid → Oid → Str) (w : World) (pairs : List (Oid × Oid))
     (tracked : List Str) : Prop where
   /-- **replay-canonical originals**: each original's stored note has the files, sessions, line
@@ -271,13 +274,25 @@ structure ReplayHyps (replay : List Oid → Oid → Str) (w : World) (pairs : Li
   contentDetermined : (∀ pr ∈ pairs, agreeOn w tracked pr = true) → ∀ pr ∈ pairs,
     noteEquiv (replay (pairs.map (·.1)) pr.1) (replay (pairs.map (·.2)) pr.2) pr.2 = true
 
-/-- **shortcut_equiv_replay.** Whenever the shortcut is taken, for every pair `(o, n)` the note
-    it writes on `n` (`remapNote (note o) n`) is `≈` the note full replay would have produced
-    for `n` — PROVIDED the originals are replay-canonical and replay is content-determined
-    (`ReplayHyps`), the originals' notes are serializer output and commit ids need no escaping.
-    Whether the first proviso holds of the real slow path is observation O14: it does NOT
-    (section 4); the statement without it is refuted there. -/
-theorem shortcut_equiv_replay (reser : Str → Str → Option Str)
+/-- the precondition gives pairwise agreement on all tracked paths -/
+theorem fast_path_agrees (w : World) (hw : WorldOk w = true) (rebase : Bool)
+    (orig new toProcess : List Oid) (tracked : List Str) (pairs : List (Oid × Oid))
+    (hpairs : pairs = if rebase then (orig.zip new).filter (fun p => toProcess.contains p.2)
+                      else orig.zip new)
+    (hfast : fastPathApplies w rebase orig new toProcess tracked = true) :
+    ∀ pr ∈ pairs, agreeOn w tracked pr = true := by
+  intro pr hpr
+  cases hd : agreeOn w tracked pr with
+  | true => rfl
+  | false =>
+    have := decline_when_any_pair_differs w hw rebase orig new toProcess tracked pairs hpairs
+      (Or.inl ⟨pr, hpr, hd⟩)
+    rw [this] at hfast; cases hfast
+
+/-- **shortcut_equiv_replay_abstract.** For ANY replay function satisfying `ReplayHyps`: whenever
+    the shortcut is taken, for every pair `(o, n)` the note it writes on `n` is `≈` the note
+    replay produces for `n`. -/
+theorem shortcut_equiv_replay_abstract (reser : Str → Str → Option Str)
     (replay : List Oid → Oid → Str) (w : World) (hw : WorldOk w = true) (rebase : Bool)
     (orig new toProcess : List Oid) (tracked : List Str) (pairs : List (Oid × Oid))
     (hpairs : pairs = if rebase then (orig.zip new).filter (fun p => toProcess.contains p.2)
@@ -288,15 +303,7 @@ theorem shortcut_equiv_replay (reser : Str → Str → Option Str)
     (hoid : ∀ pr ∈ pairs, jsonEscape pr.2 = pr.2) :
     ∀ pr ∈ pairs, ∀ t, w.note pr.1 = some t →
       noteEquiv (remapNote reser t pr.2) (replay (pairs.map (·.2)) pr.2) pr.2 = true := by
-  -- the precondition gives pairwise agreement on all tracked paths
-  have hagree : ∀ pr ∈ pairs, agreeOn w tracked pr = true := by
-    intro pr hpr
-    cases hd : agreeOn w tracked pr with
-    | true => rfl
-    | false =>
-      have := decline_when_any_pair_differs w hw rebase orig new toProcess tracked pairs hpairs
-        (Or.inl ⟨pr, hpr, hd⟩)
-      rw [this] at hfast; cases hfast
+  have hagree := fast_path_agrees w hw rebase orig new toProcess tracked pairs hpairs hfast
   intro pr hpr t ht
   have h1 := remap_equiv_original reser t pr.2 (hshape pr hpr t ht) (hoid pr hpr)
   have h2 := hrep.canonical pr hpr t ht
@@ -306,8 +313,8 @@ theorem shortcut_equiv_replay (reser : Str → Str → Option Str)
   exact ⟨sameUpToBase_trans _ _ _ (sameUpToBase_symm _ _ h1.1) (sameUpToBase_trans _ _ _ h2 h3.1), h3.2⟩
 
 /-- non-vacuity of `SerdeShaped` and `ReplayHyps`: a one-pair world whose original carries a
-    serializer-shaped note, and the *ideal* replay (per-commit note re-based on the commit it
-    is asked about) satisfy every hypothesis of `shortcut_equiv_replay` -/
+    serializer-shaped note, and the replay that re-bases the per-commit note on the commit it is
+    asked about satisfy every hypothesis of `shortcut_equiv_replay_abstract` -/
 def nvMeta (c : Str) : Str :=
   metaJson (chars% "{\n  ") [] (chars% " ") c (chars% ",\n  \"prompts\": {}\n}")
 def nvNote (c : Str) : Str := serialize [⟨chars% "f", [⟨chars% "s1", [.single 2]⟩]⟩] (nvMeta c)
@@ -339,20 +346,129 @@ example : ReplayHyps (fun _ c => nvNote c) nvWorld [(chars% "0a", chars% "0b")] 
 
 example : fastPathApplies nvWorld false [chars% "0a"] [chars% "0b"] [] [chars% "f"] = true := by decide
 
-/-! ## 4. O14: the real slow path is NOT replay-canonical — it writes CUMULATIVE notes — so the
-      unconditional statement fails; what survives is blame-equivalence
+/-! ## 4. The modelled replay of /repo: per-commit notes (after the `fix:` for O14)
 
-  Observed on the unchanged binary (twin runs with `GIT_AI_VERIF_NO_FAST_PATH=1`, replayed by
-  `./check C15` on every run, known finding `slow-path-cumulative-lines`): for the k-th
-  rewritten commit the slow path lists every AI line of the range present in the commit's
-  tracked files and all sessions of the range (until /repo 4fd233ae / efdc0647 also the
-  original head's lines of tracked files not changed yet); the post-commit note the shortcut
-  copies lists only the lines commit k introduced.  `perCommitLines` / `slowLines` are the
-  ghost-level reference model of the two line sets (validated against both binaries' notes end
-  to end). -/
+  Full replay keeps a CUMULATIVE state across the rewritten commits (every AI line of the range
+  present in the commit's tracked files, all sessions of the range).  Until the fix it wrote that
+  state as the note of each rewritten commit (observation O14, former known finding
+  `slow-path-cumulative-lines`); now `note_for_rewritten_commit` cuts the state to the lines the
+  commit adds (`git diff -U0 <first parent> <commit>`), with the prompt records of the sessions
+  that wrote them as the replayed commits' notes have them.  `replayLines` / `replayRecs` /
+  `replayNote` (Model/Remap.lean §7) model that over a ghost labelling of the repository
+  (validated against both binaries' notes end to end by `./check C15`). -/
 
-/-- the two-commit witness: commit 1 adds an AI line (session `s1`) to `f1`; commit 2 adds an
-    AI line (`s2`) to `f1` and one to `f2`; upstream changed another file only -/
+/-- what serde and the serializer guarantee of the two note texts of a pair -/
+structure PairShape (g : Ghost) (o : Commit) (n : Oid) (tracked : List Str) : Prop where
+  ser : Serializable (attOfTriples (perCommitLines (g.index o.id) (ghostTree g o tracked))) = true
+  pre : prefixOk g.pre = true
+  w1 : allWs g.w1 = true
+  w2 : allWs g.w2 = true
+  jo : jsonOk (metaJson g.pre g.w1 g.w2 (jsonEscape o.id) (g.render (g.recs o.id))) = true
+  jn : jsonOk (metaJson g.pre g.w1 g.w2 (jsonEscape n) (g.render (g.recs o.id))) = true
+
+/-- one pair: when the two commits agree on every tracked path, the note the shortcut writes
+    (the original's post-commit note, re-based) is `≈` the note replay writes -/
+theorem replay_pair_equiv (reser : Str → Str → Option Str) (g : Ghost) (o n : Commit)
+    (tracked : List Str) (htr : tracked.Nodup) (hk : 1 ≤ g.index o.id)
+    (hag : tracked.all (fun p => lookup p o.files == lookup p n.files) = true)
+    (hs : PairShape g o n.id tracked) (hc : jsonEscape n.id = n.id) :
+    noteEquiv (remapNote reser (ghostOrigNote g o tracked) n.id) (replayNote g o n tracked) n.id
+      = true := by
+  have hT := ghostTree_agree g o n tracked hag
+  have hL : replayLines (g.index o.id) (ghostTree g n tracked) =
+      perCommitLines (g.index o.id) (ghostTree g o tracked) := by
+    rw [← hT]
+    exact replayLines_eq_perCommitLines _ _ hk (ghostTree_nodup g o tracked htr)
+  unfold replayNote ghostOrigNote
+  simp only [hL, replayRecs_intact]
+  rw [remap_is_base_update reser _ g.pre g.w1 g.w2 o.id _ n.id hs.ser hs.pre hs.w1 hs.w2 hc]
+  unfold noteEquiv sameUpToBase baseIs
+  rw [noteView_serialize _ g.pre g.w1 g.w2 n.id _ hs.ser hs.jn hs.pre hs.w1 hs.w2]
+  simp [hc]
+
+/-- **shortcut_equiv_replay.** Whenever the shortcut is taken (`fastPathApplies`), for every
+    pair `(o, n)` both commits and the original's note exist and the note the shortcut writes on
+    `n` is `≈` the note full replay (as modelled: `replayNote`) writes for `n` — with NO
+    hypothesis about replay.  What is assumed is about the input: the originals carry the notes
+    the post-commit path wrote for them (`ghostOrigNote`: the AI lines the commit added, its
+    sessions' records), in serde's shape, tracked paths are distinct, commit ids need no
+    escaping. -/
+theorem shortcut_equiv_replay (reser : Str → Str → Option Str) (g : Ghost)
+    (w : World) (hw : WorldOk w = true) (rebase : Bool)
+    (orig new toProcess : List Oid) (tracked : List Str) (pairs : List (Oid × Oid))
+    (hpairs : pairs = if rebase then (orig.zip new).filter (fun p => toProcess.contains p.2)
+                      else orig.zip new)
+    (hfast : fastPathApplies w rebase orig new toProcess tracked = true)
+    (htr : tracked.Nodup)
+    (hidx : ∀ pr ∈ pairs, 1 ≤ g.index pr.1)
+    (hnote : ∀ pr ∈ pairs, ∀ o, w.commit pr.1 = some o →
+      w.note pr.1 = some (ghostOrigNote g o tracked))
+    (hshape : ∀ pr ∈ pairs, ∀ o, w.commit pr.1 = some o → PairShape g o pr.2 tracked)
+    (hoid : ∀ pr ∈ pairs, jsonEscape pr.2 = pr.2) :
+    ∀ pr ∈ pairs, ∃ o n t, w.commit pr.1 = some o ∧ w.commit pr.2 = some n ∧
+      w.note pr.1 = some t ∧
+      noteEquiv (remapNote reser t pr.2) (replayNote g o n tracked) pr.2 = true := by
+  have hagree := fast_path_agrees w hw rebase orig new toProcess tracked pairs hpairs hfast
+  intro pr hpr
+  have hag := hagree pr hpr
+  unfold agreeOn at hag
+  cases ho : w.commit pr.1 with
+  | none => simp [ho] at hag
+  | some o =>
+    cases hn : w.commit pr.2 with
+    | none => simp [ho, hn] at hag
+    | some n =>
+      simp only [ho, hn] at hag
+      have hoid1 : o.id = pr.1 := by
+        unfold World.commit at ho
+        simpa using List.find?_some ho
+      have hnid : n.id = pr.2 := by
+        unfold World.commit at hn
+        simpa using List.find?_some hn
+      refine ⟨o, n, ghostOrigNote g o tracked, rfl, rfl, hnote pr hpr o ho, ?_⟩
+      have hs := hshape pr hpr o ho
+      rw [← hnid] at hs ⊢
+      exact replay_pair_equiv reser g o n tracked htr (hoid1 ▸ hidx pr hpr) hag hs
+        (hnid ▸ hoid pr hpr)
+
+/-- the per-commit cut is exact (used above; restated as a property theorem): for every ghost
+    tree with distinct paths the replayed note's lines are the per-commit lines -/
+theorem replay_lines_per_commit (k : Nat) (tk : GTree) (hk : 1 ≤ k)
+    (hnd : (tk.map (·.1)).Nodup) : replayLines k tk = perCommitLines k tk :=
+  replayLines_eq_perCommitLines k tk hk hnd
+
+/-- **shortcut_blame_equiv.** `git-ai blame` of a line consults the note of the commit that
+    introduced the line, under the line's number in that commit: the replayed note and the
+    shortcut's note give the same answer for every line of every rewritten commit. -/
+theorem shortcut_blame_equiv (tk : GTree) (k : Nat) (hk : 1 ≤ k)
+    (hnd : (tk.map (·.1)).Nodup) (p : Str) (j : Nat) :
+    blameOwn (replayLines k tk) tk k p j = blameOwn (perCommitLines k tk) tk k p j := by
+  rw [replayLines_eq_perCommitLines k tk hk hnd]
+
+/-! ### non-vacuity: a ghost-labelled world satisfying every hypothesis -/
+
+def nvGhost : Ghost :=
+  { content := fun b => if b = chars% "b1" then [⟨none, 0⟩, ⟨some (chars% "s1"), 1⟩] else [],
+    index := fun _ => 1,
+    recs := fun _ => [(chars% "s1", chars% "{}")],
+    render := fun _ => chars% ",\n  \"prompts\": {}\n}",
+    pre := chars% "{\n  ", w1 := [], w2 := chars% " ",
+    recount := fun r _ => r }
+
+def nvO : Commit := ⟨chars% "0a", chars% "a1", [(chars% "f", chars% "b1")]⟩
+def nvN : Commit := ⟨chars% "0b", chars% "c1", [(chars% "f", chars% "b1"), (chars% "up", chars% "b9")]⟩
+
+example : ghostOrigNote nvGhost nvO [chars% "f"] = nvNote (chars% "0a") := by decide
+example : nvWorld.note (chars% "0a") = some (ghostOrigNote nvGhost nvO [chars% "f"]) := by decide
+example : PairShape nvGhost nvO (chars% "0b") [chars% "f"] :=
+  ⟨by decide, by decide, by decide, by decide, by decide, by decide⟩
+example : [chars% "f"].Nodup := by decide
+example : replayNote nvGhost nvO nvN [chars% "f"] = nvNote (chars% "0b") := by decide
+
+/-! ### O14 regression: the two-commit witness -/
+
+/-- commit 1 adds an AI line (session `s1`) to `f1`; commit 2 adds an AI line (`s2`) to `f1`
+    and one to `f2`; upstream changed another file only -/
 def w14_t1 : GTree :=
   [(chars% "f1", [⟨none, 0⟩, ⟨some (chars% "s1"), 1⟩, ⟨none, 0⟩, ⟨none, 0⟩]),
    (chars% "f2", [⟨none, 0⟩, ⟨none, 0⟩])]
@@ -363,66 +479,49 @@ def w14_t2 : GTree :=
 /-- the shortcut's notes (line sets) for the two rewritten commits … -/
 example : perCommitLines 1 w14_t1 = [(chars% "f1", chars% "s1", 2)] := by decide
 example : perCommitLines 2 w14_t2 = [(chars% "f1", chars% "s2", 4), (chars% "f2", chars% "s2", 2)] := by decide
-/-- … and the slow path's: the second commit carries the first commit's line as well
-    (cumulative) — exactly the notes the real binary wrote -/
-example : slowLines w14_t1 = [(chars% "f1", chars% "s1", 2)] := by decide
-example : slowLines w14_t2 =
+/-- … the replay's running state at the second commit still holds the first commit's line … -/
+example : cumulativeLines w14_t2 =
     [(chars% "f1", chars% "s1", 2), (chars% "f1", chars% "s2", 4), (chars% "f2", chars% "s2", 2)] := by decide
+/-- … and the replayed notes no longer do (regression of O14) -/
+theorem w14_replay_lines :
+    replayLines 1 w14_t1 = perCommitLines 1 w14_t1 ∧
+    replayLines 2 w14_t2 = perCommitLines 2 w14_t2 := by decide
 
 def w14_meta (c : Str) : Str :=
   metaJson (chars% "{\n  ") [] (chars% " ") c (chars% ",\n  \"prompts\": {}\n}")
 
-/-- **The unconditional statement is false** (negation witness, replayed on the binary): with
-    the slow path's note for the second rewritten commit as `replay`, the shortcut's note is
-    not `≈` to it although the precondition holds — the line sets differ (even with identical
-    prompt records, which the real slow path also changes). -/
-theorem shortcut_equiv_replay_unconditional_false :
+/-- regression of the former negation witness `shortcut_equiv_replay_unconditional_false`: on
+    the O14 history the shortcut's note for the second rewritten commit is now `≈` the
+    replayed note -/
+theorem w14_shortcut_equiv_replay :
     noteEquiv
       (remapNote (fun _ _ => none)
         (serialize (attOfTriples (perCommitLines 2 w14_t2)) (w14_meta (chars% "0a"))) (chars% "0b"))
-      (serialize (attOfTriples (slowLines w14_t2)) (w14_meta (chars% "0b")))
-      (chars% "0b") = false := by decide
-
-/-- the same note against itself re-based: the difference above is only the cumulative part -/
-example : noteEquiv
-      (remapNote (fun _ _ => none)
-        (serialize (attOfTriples (perCommitLines 2 w14_t2)) (w14_meta (chars% "0a"))) (chars% "0b"))
-      (serialize (attOfTriples (perCommitLines 2 w14_t2)) (w14_meta (chars% "0b")))
+      (serialize (attOfTriples (replayLines 2 w14_t2)) (w14_meta (chars% "0b")))
       (chars% "0b") = true := by decide
 
-/-- **shortcut_blame_equiv_partial.** What does hold between the two notes, for every ghost
-    history: `git-ai blame` of a line consults the note of the commit that introduced the line,
-    under the line's number in that commit; for every line the k-th commit introduced, the
-    cumulative slow-path note and the per-commit note name the same session (or both none).
-    Hence both note sets give identical blame for every line of every rewritten commit.
-    `_partial`: it is stated over the ghost reference model of the two line sets (`slowLines`:
-    all AI lines of the range in the commit's tree — validated end to end, not proved of the
-    Rust slow path) and needs distinct paths in a tree.  The reference model takes each line's
-    session from the commit's own tree; that is what the real slow path does exactly when no
-    later commit of the range rewrites or deletes an AI line of the range (append-only ranges:
-    model = both binaries' notes in every twin run).  Outside that domain the real slow path
-    projects the ORIGINAL HEAD's sessions onto earlier commits and blame-equivalence is
-    REFUTED on the binary (known finding `slow-path-misattributes-lines-rewritten-later`; the
-    shortcut's note is the correct one). -/
-theorem shortcut_blame_equiv_partial (tk : GTree) (k : Nat) (hk : 1 ≤ k)
-    (hnd : (tk.map (·.1)).Nodup) (p : Str) (j : Nat) :
-    blameOwn (slowLines tk) tk k p j = blameOwn (perCommitLines k tk) tk k p j := by
-  unfold blameOwn
-  cases hl : lineOf tk p j with
-  | none => rfl
-  | some l =>
-    by_cases hb : l.born = k
-    · simp only [hb, if_true]
-      rw [slow_fast_agree_on_born tk k hk hnd p j l hl hb]
-    · simp [hb]
+/-- what the fix removed: writing the running state itself (the cumulative note) is NOT `≈` the
+    shortcut's note although the precondition holds — the cut to the commit's own lines is
+    necessary -/
+theorem cumulative_emission_not_equiv :
+    noteEquiv
+      (remapNote (fun _ _ => none)
+        (serialize (attOfTriples (perCommitLines 2 w14_t2)) (w14_meta (chars% "0a"))) (chars% "0b"))
+      (serialize (attOfTriples (cumulativeLines w14_t2)) (w14_meta (chars% "0b")))
+      (chars% "0b") = false := by decide
 
-/-- non-vacuity on the witness: the hypotheses hold and blame is decided for the AI lines -/
+/-- records: an intact commit keeps its note's records; a session whose lines did not arrive
+    loses its record; one whose lines arrive in part is recounted; a record without lines stays -/
+example : replayRecs (fun r n => r ++ [Char.ofNat (48 + n)])
+    [(chars% "s1", chars% "A"), (chars% "s2", chars% "B"), (chars% "s3", chars% "C"), (chars% "s4", chars% "D")]
+    [(chars% "f", chars% "s1", 1), (chars% "f", chars% "s2", 2), (chars% "f", chars% "s2", 3), (chars% "f", chars% "s3", 4)]
+    [(chars% "f", chars% "s1", 1), (chars% "f", chars% "s2", 2)] =
+    [(chars% "s1", chars% "A"), (chars% "s2", chars% "B1"), (chars% "s4", chars% "D")] := by decide
+
+/-- non-vacuity of the blame statement on the witness -/
 example : (w14_t2.map (·.1)).Nodup := by decide
-example : blameOwn (slowLines w14_t2) w14_t2 2 (chars% "f1") 4 = some (some (chars% "s2")) := by decide
+example : blameOwn (replayLines 2 w14_t2) w14_t2 2 (chars% "f1") 4 = some (some (chars% "s2")) := by decide
 example : blameOwn (perCommitLines 2 w14_t2) w14_t2 2 (chars% "f1") 4 = some (some (chars% "s2")) := by decide
-/-- … and commit 1's line, which the cumulative note of commit 2 repeats, is never looked up
-    in commit 2's note (it is not born there) -/
-example : blameOwn (slowLines w14_t2) w14_t2 2 (chars% "f1") 2 = none := by decide
 
 end GitAi.Remap
 
@@ -434,6 +533,11 @@ end GitAi.Remap
 #print axioms GitAi.Remap.scanner_true_iff_no_record
 #print axioms GitAi.Remap.comparator_complete
 #print axioms GitAi.Remap.remap_equiv_original
+#print axioms GitAi.Remap.shortcut_equiv_replay_abstract
+#print axioms GitAi.Remap.replay_pair_equiv
 #print axioms GitAi.Remap.shortcut_equiv_replay
-#print axioms GitAi.Remap.shortcut_equiv_replay_unconditional_false
-#print axioms GitAi.Remap.shortcut_blame_equiv_partial
+#print axioms GitAi.Remap.replay_lines_per_commit
+#print axioms GitAi.Remap.shortcut_blame_equiv
+#print axioms GitAi.Remap.w14_replay_lines
+#print axioms GitAi.Remap.w14_shortcut_equiv_replay
+#print axioms GitAi.Remap.cumulative_emission_not_equiv
